@@ -781,6 +781,7 @@ class Capture:
 
 
 _PREP_CACHE: dict = {}
+_TARGETS: dict = {}          # body -> the materialised target last seen by the comparator (for the payload clause)
 
 
 def prepared(body, policy, delay, owned):
@@ -835,6 +836,8 @@ def body_ok_for_target(body, target):
     references, + the last-applied annotation whose document is that same object)"""
     if not isinstance(body, dict):
         return "PATCH body is not an object"
+    if target is None:
+        return None
     b = copy.deepcopy(body)
     ann = None
     try:
@@ -953,6 +956,15 @@ def run_flow_case(ctx: Ctx, case, cases, terms, oracle=True):
         ctx.notes.append({"prepare_failed": case["body"], "outcome": repr(err)})
         return None
     cl = drivers.Cluster()
+    if case.get("prime") is not None:
+        # first a pass that finds the object in sync; then the object drifts (no generation bump: the cluster
+        # stores what it is given) and the same function reconciles again, nothing reset in between
+        cl.put(case["prime"], plural=PLURAL)
+        p0 = one_pass(fn, cl)
+        ctx.count("flow:prime:" + ("quiet" if not p0["mutations"] and p0["outcome"]["cls"] == "Ok" else "not-in-sync"))
+        if p0["validate_args"]:
+            case = dict(case)
+            _TARGETS[json.dumps(case["body"])] = p0["validate_args"][0]["t"]
     cl.put(case["live"], plural=PLURAL)
     p2 = one_pass(fn, cl)
     p3 = None
@@ -960,12 +972,16 @@ def run_flow_case(ctx: Ctx, case, cases, terms, oracle=True):
             [m["method"] for m in p2["mutations"]] == ["PATCH"]:
         p3 = one_pass(fn, cl)
     ctx.count(f"flow:{case['policy']}:{p2['outcome']['cls']}")
-    if not p2["validate_args"] and not (case.get("dev") is not None and p2["outcome"]["cls"] == "Raised"):
+    if not p2["validate_args"]:
         ctx.count("flow:no-validate-call")
-        return p2
+        if case.get("dev") is None:
+            return p2
     va = p2["validate_args"][0] if p2["validate_args"] else None
+    if va is not None:
+        _TARGETS[json.dumps(case["body"])] = va["t"]
     if oracle and case.get("dev") is not None:
-        why = flow_oracle(case, p2, p3, va["t"] if va else None)
+        # the oracle judges the call log whether or not the comparator was reached
+        why = flow_oracle(case, p2, p3, va["t"] if va else _TARGETS.get(json.dumps(case["body"])))
         if why:
             kind = case["dev"]["kind"]
             if why[0] == "raises":
@@ -1002,6 +1018,14 @@ def flow_body(rng, depth):
         body["metadata"] = {"labels": {"app": "x"}, "annotations": {"note": "n"}}
     if rng.random() < 0.3:
         body["data"] = gen_good(rng, 1, nulls=False)
+    # target-specified EMPTY containers (emptyDir: {}, podSelector: {}, args: []) at top and nested positions
+    r = rng.random()
+    if r < 0.8:
+        t["emptyDir"] = {}
+        if r < 0.5:
+            t["volumes"] = [{"name": "v", "emptyDir": {}}, {"name": "w", "args": []}]
+        if r < 0.3:
+            t["podSelector"] = {"matchLabels": {}}
     return body
 
 
@@ -1073,6 +1097,21 @@ def run_flow(ctx: Ctx, cases, terms):
         # sanity: the undeviated decorated object is at the fixpoint (C04's oracle; here only a precondition)
         base = run_flow_case(ctx, {"kind": "flow", "body": body, "policy": "patch", "delay": 5, "owned": owned,
                                    "live": live, "dev": None}, cases, terms)
+        if base is not None and (base["mutations"] or base["outcome"]["cls"] != "Ok") and base["validate_args"]:
+            # what the function created does not meet its own target (C04's business).  Drift correction is
+            # still judged: start from the object a faithful create would have stored for the target the
+            # comparator saw
+            ctx.count("flow:created-object-not-at-fixpoint")
+            tgt = base["validate_args"][0]["t"]
+            obj = strip(tgt)
+            md = obj.setdefault("metadata", {})
+            if owned:
+                md[OWNERS] = [dict(OWNER_REF)]
+            md.setdefault("annotations", {})[ANNOTATION] = json.dumps(strip(tgt))
+            live = decorate(rng, target, obj, intfloat=False)
+            live["metadata"].update({"uid": "uid-w1", "resourceVersion": "12"})
+            base = run_flow_case(ctx, {"kind": "flow", "body": body, "policy": "patch", "delay": 5, "owned": owned,
+                                       "live": live, "dev": None}, cases, terms)
         if base is None or base["mutations"] or base["outcome"]["cls"] != "Ok":
             ctx.count("flow:base-not-fixpoint")
             continue
@@ -1081,12 +1120,24 @@ def run_flow(ctx: Ctx, cases, terms):
         devs = [(d, l2) for d, l2 in devs if d["path"][0][1] not in ("apiVersion", "kind")
                 and not (d["path"][0][1] == "metadata" and (len(d["path"]) == 1 or d["path"][1][1] in ("name", "namespace")))]
         if len(devs) > per_body:
-            devs = rng.sample(devs, per_body)
+            def at_empty(d):
+                try:
+                    cur = target
+                    for st in d["path"]:
+                        if st[0] == "m":
+                            return False
+                        cur = cur[st[1]]
+                    return cur == {} or cur == []
+                except Exception:  # noqa: BLE001
+                    return False
+            keep = [x for x in devs if at_empty(x[0])]
+            rest = [x for x in devs if not at_empty(x[0])]
+            devs = keep[:per_body] + rng.sample(rest, max(0, min(len(rest), per_body - len(keep[:per_body]))))
         for di, (desc, live2) in enumerate(devs):
             policy = ["patch", "recreate", "never", "default"][(bi + di) % 4] if di % 5 else "patch"
             delay = rng.choice([1, 5, 17, 60])
             run_flow_case(ctx, {"kind": "flow", "body": body, "policy": policy, "delay": delay, "owned": owned,
-                                "live": live2, "dev": desc}, cases, terms)
+                                "live": live2, "dev": desc, "prime": live if di % 3 != 1 else None}, cases, terms)
             ctx.count(f"flow-dev:{desc['kind']}")
             # the same drift on an object that ALSO lacks the parent's owner reference (adopted object, or
             # ownerReferences rewritten along with the drift): still exactly the policy's action
